@@ -38,7 +38,7 @@ impl Model for DModel {
     type State = DState;
     type Action = (Op, dx::Extra);
     fn init_states(&self) -> Vec<DState> {
-        vec![DState { hist: vec![], extra: (0, 0), key: (vec![], None, vec![], None, (0, 0), vcommon::report::fnv(0, format!("{:?}", tls_parser::TlsRecordsParser::default()).as_bytes())), violation: false }]
+        vec![DState { hist: vec![], extra: (0, 0), key: (vec![], None, vec![], None, (0, 0), 0), violation: false }]
     }
     fn actions(&self, s: &DState, out: &mut Vec<Self::Action>) {
         if s.violation {
